@@ -194,6 +194,7 @@ contract(
     calls={"__move_down": {"W": "bin_width", "H": "bin_height"}, "__move_left": {"W": "bin_width", "H": "bin_height"}},
     # ghost witness: when bin `bin_id` is closed, remember one of its rows (its first one)
     ghost_code={"after assign bin_id #1": ["first_row[bin_id - 1] = bin_start"]},
+    ghost_results={"bin_start": INT},      # the local mentioned by the last ensures clause: existential for callers
     loops={
         "0": Loop(inv=_outer_inv_1),
         "0.0": Loop(inv=_while_inv_1, variant="y[i, IDX_BOTTOM_Y] + y[i, IDX_LEFT_X]",
@@ -569,3 +570,64 @@ CONTRACTS[E2 + ":_decode"].call = _call_decode2
 for _nm in ("__move_down", "__move_left"):
     CONTRACTS[E2 + ":" + _nm].gen = _gen_move2
     CONTRACTS[E2 + ":" + _nm].call = _mk_call_move2(_nm)
+
+
+# ====================================================================== class wrappers: allocation sites and call sites (C13, C01)
+from pyvc.spec import OBJ, PYINT, Summary  # noqa: E402
+
+# what binpacking2d.Instance establishes (same clauses as _decode_pre, phrased over the encoder's field)
+_ENC_FACTS = [
+    "W >= 1 and H >= 1 and W <= 10**12 and H <= 10**12",
+    "nd >= 1 and len(self.__instance) == nd and n >= nd",
+    "forall(k, 0, nd, 1 <= self.__instance[k, IDX_WIDTH] and self.__instance[k, IDX_WIDTH] <= max(W, H)"
+    " and 1 <= self.__instance[k, IDX_HEIGHT] and self.__instance[k, IDX_HEIGHT] <= max(W, H)"
+    " and not (self.__instance[k, IDX_WIDTH] > min(W, H) and self.__instance[k, IDX_HEIGHT] > min(W, H)))",
+    "forall(k, 0, nd, max(W, H) + self.__instance[k, IDX_WIDTH] + 1 <= ID_hi and max(W, H) + self.__instance[k, IDX_HEIGHT] + 1 <= ID_hi)",
+    "n + 1 <= ID_hi and ID_lo < 0 and ID_hi <= 2**63 - 1",
+]
+# what the (signed) permutation space and PackingSpace.create establish about the arguments of decode
+_DEC_ARGS = ["len(x) == n and len(y) == n", "forall(k, 0, n, x[k] != 0 and -nd <= x[k] and x[k] <= nd)",
+             "X_hi <= 2**63 - 1 and X_lo < 0", "D_lo == ID_lo and D_hi == ID_hi"]
+
+contract(
+    E2 + ":ImprovedBottomLeftEncoding2.__init__",
+    props="C13 C01",
+    params={"instance": A2("ID", cols=3)},
+    ghosts={"n": PYINT},
+    i64=False,
+    attrs={"instance.n_items": "n", "instance.dtype": "(ID_lo, ID_hi)"},
+    requires=["n >= 1"],
+    summaries={"if #0": Summary({}, [], "isinstance check")},
+    ensures=[tag("C13 C01", "scratch-sizes", "len(self.__bin_starts) == n and len(self.__bin_ends) == n"),
+             tag("C13 C01", "scratch-dtype", "dtype_lo(self.__bin_starts) == ID_lo and dtype_hi(self.__bin_starts) == ID_hi"
+                 " and dtype_lo(self.__bin_ends) == ID_lo and dtype_hi(self.__bin_ends) == ID_hi"),
+             tag("C13 C01", "instance-kept", "same_array(self.__instance, instance)")],
+)
+
+contract(
+    E2 + ":ImprovedBottomLeftEncoding2.decode",
+    props="C13 C01 C14",
+    params={"x": A1("X"), "y": A2("D", cols=6, uninit=True)},
+    ghosts={"n": PYINT, "nd": PYINT, "W": PYINT, "H": PYINT},
+    fields={"self.__instance": A2("ID", cols=3), "self.__bin_starts": A1("ID", uninit=True), "self.__bin_ends": A1("ID", uninit=True)},
+    i64=False,
+    attrs={"self.__instance.bin_width": "W", "self.__instance.bin_height": "H"},
+    requires=_ENC_FACTS + _DEC_ARGS + ["len(self.__bin_starts) == n and len(self.__bin_ends) == n"],
+    calls={"_decode": {"n": "n", "nd": "nd"}},
+    modifies=["y"],
+    ensures=[tag("C01", "reported-bin-count", "1 <= y.n_bins and y.n_bins <= n and forall(k, 0, n, 1 <= y[k, IDX_BIN] and y[k, IDX_BIN] <= y.n_bins)")],
+)
+
+contract(
+    E1 + ":ImprovedBottomLeftEncoding1.decode",
+    props="C13 C01 C14",
+    params={"x": A1("X"), "y": A2("D", cols=6, uninit=True)},
+    ghosts={"n": PYINT, "nd": PYINT, "W": PYINT, "H": PYINT, "first_row": A1()},
+    fields={"self.__instance": A2("ID", cols=3)},
+    i64=False,
+    attrs={"self.__instance.bin_width": "W", "self.__instance.bin_height": "H"},
+    requires=_ENC_FACTS + _DEC_ARGS,
+    calls={"_decode": {"n": "n", "nd": "nd", "first_row": "first_row"}},
+    modifies=["y", "first_row"],
+    ensures=[tag("C01", "reported-bin-count", "1 <= y.n_bins and y.n_bins <= n and forall(k, 0, n, 1 <= y[k, IDX_BIN] and y[k, IDX_BIN] <= y.n_bins)")],
+)
